@@ -92,6 +92,7 @@ struct FnCfg {
 }
 
 struct R<'a> {
+    unit_fn: bool,
     /// span of the function body block (slicing applies to its statements only)
     body_block: Option<(usize, usize)>,
     /// R15: spans of the blocks that are bodies of (generated or real) `for` loops
@@ -866,6 +867,12 @@ impl<'r, 'a> V<'r, 'a> {
                 });
                 self.visit_stmt(st);
                 continue;
+            }
+            if matches!(st, Stmt::Expr(_, None)) && i + 1 == b.stmts.len()
+                && self.r.body_block == Some(rng(b.span())) && self.r.bind_tail.is_none() && self.r.unit_fn
+            {
+                // a unit-typed tail expression becomes a statement, so that end-of-body proof text can follow it
+                self.edits.push(Edit { start: e, end: e, text: ";".to_string() });
             }
             self.edits.push(Edit {
                 start: a,
@@ -1740,6 +1747,7 @@ fn main() {
             .map(|a| a.iter().map(|v| v.as_str().unwrap().to_string()).collect())
             .unwrap_or_default();
         let mut r = R {
+            unit_fn: false,
             body_block: None,
             loop_bodies: BTreeSet::new(),
             pending_loop: None,
@@ -1867,6 +1875,7 @@ fn main() {
                                 r.bind_tail = Some(rng(b.span()));
                             }
                             r.body_block = Some(rng(b.span()));
+                            r.unit_fn = matches!(&sig.output, ReturnType::Default);
                             let inner = r.render_block_inner(b);
                             if r.tail_bound {
                                 format!("{{{} }}", inner)
